@@ -132,6 +132,13 @@ def merge_idiom_obs(ctx, fams, rule: str) -> List[Ob]:
     return out
 
 
+def _exits(ctx, fams, rule: str) -> List[Ob]:
+    """every return of a kernel in front of its merge loop is an obligation of its own (rules_exits.py): the loop rules
+    speak about the path through the loop only"""
+    from .rules_exits import early_exit_obs
+    return early_exit_obs(ctx, fams, rule)
+
+
 def helper_pairs_named(ctx, names: Set[str]) -> Set[str]:
     return names
 
@@ -437,6 +444,7 @@ NOT_DECIDED = " NOT decided (stated, not hidden): "
 
 P('C01', 'other',
   [_isi_rules,
+   lambda c: _exits(c, [isi_family(c)], 'R01.9'),
    lambda c: _sib(c, [isi_family(c)], 'R12.2'),
    lambda c: _proj(c, [isi_family(c)], 'R05.2'),
    lambda c: _sigma(c, [isi_family(c)], 'R07.1'),
@@ -453,6 +461,7 @@ P('C01', 'other',
 
 P('C02', 'other',
   [_spike_rules,
+   lambda c: _exits(c, [spike_family(c)], 'R02.9'),
    lambda c: _sib(c, [spike_family(c)], 'R12.2'),
    lambda c: _proj(c, [spike_family(c)], 'R05.2'),
    lambda c: _sigma(c, [spike_family(c)], 'R07.1'),
@@ -469,6 +478,7 @@ P('C02', 'other',
 
 P('C03', 'other',
   [lambda c: merge_idiom_obs(c, [discrete_families(c).get('sync')], 'R03.1'),
+   lambda c: _exits(c, [discrete_families(c).get('sync'), discrete_families(c).get('single')], 'R03.9'),
    lambda c: _discrete_rules(c, ('sync',)),
    lambda c: r03_2_strict_tests(c, 'R03.2'),
    lambda c: r03_4_interpolate(c, 'R03.4'),
@@ -489,6 +499,7 @@ P('C03', 'other',
 
 P('C04', 'other',
   [lambda c: _discrete_rules(c, ('order', 'dir')),
+   lambda c: _exits(c, [discrete_families(c).get('order'), discrete_families(c).get('dir')], 'R04.9'),
    lambda c: _sigma(c, [discrete_families(c).get('order'), discrete_families(c).get('dir')], 'R04.1', ('anti', 'swap')),
    lambda c: [o for o in r14_2_index_kinds(c, 'R04.4', 'R04.6', 'R04.4') if o.rule in ('R04.4', 'R04.6') and 'auto-threshold' not in o.key
               and 'spike_directionality.py' in o.where],
@@ -510,6 +521,7 @@ P('C04', 'other',
 P('C05', 'other',
   [lambda c: r05_1_route_identity(c, 'R05.1'),
    lambda c: _proj(c, eng(c).families, 'R05.2'),
+   lambda c: _exits(c, eng(c).families, 'R05.9'),
    lambda c: r18_1_guarded_divisions(c, 'R05.3', 'R05.4'),
    lambda c: only_rules(lambda cc: r14_2_index_kinds(cc, 'R14.2', 'R05.5', 'R14.3'), {'R05.5'})(c),
    lambda c: RM.r06_aggregation(c, 'R05.5', 'R05.5'),
@@ -532,26 +544,31 @@ P('C05', 'other',
 P('C06', 'other',
   [lambda c: only_rules(lambda cc: r14_2_index_kinds(cc, 'R14.2', 'R06.1', 'R14.3'), {'R06.1'})(c),
    lambda c: RM.r06_aggregation(c, 'R06.2', 'R06.3'),
+   lambda c: _exits(c, eng(c).families, 'R06.9'),
    lambda c: r06_4_matrix_fills(c, 'R06.4'),
    lambda c: _sigma(c, [isi_family(c), spike_family(c), discrete_families(c).get('sync')], 'R06.5', ('sym',)),
    lambda c: r18_1_guarded_divisions(c, 'R06.6', 'R06.6', modules={'pyspike.spike_sync', 'pyspike.generic', 'pyspike.spike_directionality'}),
-   lambda c: add_kernel_symmetry(c, eng(c), 'R06.7', {'PieceWiseConstFunc', 'PieceWiseLinFunc', 'DiscreteFunc'})],
+   lambda c: add_kernel_symmetry(c, eng(c), 'R06.7', {'PieceWiseConstFunc', 'PieceWiseLinFunc', 'DiscreteFunc'}),
+   lambda c: RC.add_method_spec(c, 'R06.8')],
   "R06.1 all 7 pair comprehensions enumerate every unordered pair once (outer range complete, inner start exactly i+1, one kind per pair); "
   "R06.2 divide-and-conquer splits into complementary slices, leaves evaluate pairs[0], halves combined by add; R06.3 1/M with M = number of "
   "pairs for ISI/SPIKE, no rescaling for discrete profiles, mean / pooled ratio on the scalar routes; R06.4 matrices: zeros init, mirrored "
   "entry, pair order, full SPIKE-Sync diagonal; R06.5 kernel symmetry makes each pair value independent of the order inside the pair; R06.6 the "
   "pooled ratio tests the variable it divides by (order independence of the guard); R06.7 (=R09.8/R11.6) the three profile-addition kernels are "
   "invariant under exchanging their operands (sigma(P) == P), so the summed multivariate profile does not depend on the order in which the pair "
-  "profiles are added."
+  "profiles are added; R06.8 (=R09.9/R11.7) on every path of the three add() methods the object's arrays are replaced by the components "
+  "of one add-kernel call on (own arrays, operand's arrays) and nothing else is stored: no shortcut bypasses the merge."
   + NOT_DECIDED + "independence of floating-point summation order; equality of the D&C sum to the mean at every time (needs C09 as values).",
   [],
   {'R06.1': 18, 'R06.2': 3, 'R06.3': 7, 'R06.4': 8, 'R06.5': 12, 'R06.7': 6})
 
 P('C07', 'other',
   [lambda c: merge_idiom_obs(c, [f for f in eng(c).families if not f.wrapper.cls], 'R07.0'),
+   lambda c: _exits(c, [f for f in eng(c).families if not f.wrapper.cls], 'R07.9'),
    lambda c: _sigma(c, eng(c).families, 'R07.1', ('sym',)),
    lambda c: only_rules(lambda cc: _discrete_rules(cc, ('sync', 'order')), {'R07.3'})(c),
    lambda c: only_rules(_isi_rules, {'R01.3'})(c),
+   lambda c: _carry(_spike_rules(c), {'R02.4', 'R02.8'}, 'R07.7', ('R02.3', 'R02.4')),
    lambda c: only_rules(lambda cc: r18_1_guarded_divisions(cc, 'R07.5', 'R07.5'), {'R07.5'})(c),
    lambda c: only_rules(lambda cc: r_kernel_call_typestates(cc, ('', '', 'R07.2')), {'R07.2'})(c),
    lambda c: [Ob('R07.6', o.title, o.status, o.where, o.detail, o.key, o.construct, o.extra)
@@ -561,7 +578,10 @@ P('C07', 'other',
   "f(a,b) and f(b,a) are the same computation, bit for bit, for all inputs; R07.2 wrappers pass both trains' arrays in parameter order with the "
   "edges of a reconciled train; R07.3 every stored discrete entry lies between 0 (resp. -mp) and its multiplicity; R07.4 (=R01.3) the ISI value has "
   "the |a-b|/max(a,b,.) shape with the same a, b; R07.5 empty-input conventions are literals behind zero tests; R07.6 the 'auto' threshold a "
-  "wrapper hands to a kernel is computed from all of its train parameters (both trains of a pair), so it cannot depend on the argument order."
+  "wrapper hands to a kernel is computed from all of its train parameters (both trains of a pair), so it cannot depend on the argument order; R07.7 "
+  "(=R02.4, R02.8) premises of the range argument for SPIKE: the intervals that weight the two trains are the edge-corrected inter-spike intervals, "
+  "and every distance to the nearest spike is defined by the search (or is 0 at a shared time) - a shortened interval or a distance to one "
+  "particular spike lets profile values leave [0,1]; R07.9 no kernel is left in front of its merge loop by an exit that the loop rules do not cover."
   + NOT_DECIDED + "SPIKE in [0,1], finiteness, d(x,x) = 0 and ranges after normalisation (value reasoning).",
   ["lemmas L1, L4, L5"],
   {'R07.1': 15, 'R07.3': 15, 'R01.3': 20})
@@ -570,13 +590,15 @@ P('C08', 'other',
   [lambda c: c.get('units', lambda cc: r08_1_units(cc, 'R08.1')),
    lambda c: only_rules(lambda cc: RM.r15_4_threshold_definition(cc, 'R15.4', 'R08.2'), {'R08.2'})(c),
    lambda c: _mirror_kernels(c),
+   lambda c: _exits(c, [f for f in eng(c).families if not f.wrapper.cls], 'R08.9'),
    lambda c: _carry(_spike_rules(c), {'R02.4'}, 'R08.4', ('R02.3', 'R02.4')),
+   lambda c: _carry(_spike_rules(c), {'R02.8'}, 'R08.5', ('R02.3',)),
    lambda c: r03_5_limit_derivation(c, 'R08.3')],
   "R08.1 proof by typing: every backend routine (both copies, helpers typed from their call sites), the methods of the three function classes and "
   "isi_lengths.py type-check in the affine units system (Time = weight 1, Duration, Scalar); by lemma L6 a well-typed routine is invariant under "
   "t -> lambda t + c with durations scaled by lambda: scalar outputs unchanged, time outputs transformed, every branch decision unchanged - the whole "
   "first sentence of C08 over the reals; R08.2 the start-edge and end-edge rules of the ISI kernels, of the SPIKE auxiliary spikes and of isi_lengths are "
-  "images of each other under the reflection rho (computed on canonical terms); R08.4 (=R02.4) the SPIKE kernels use, at the start edge and when a train steps onto its last spike, the two interval rules that are each other's reflection (max(edge gap, neighbouring ISI) if N>1 else the edge gap); R08.3 the coincidence limit uses only t_end - t_start and 2 max_tau."
+  "images of each other under the reflection rho (computed on canonical terms); R08.4 (=R02.4) the SPIKE kernels use, at the start edge and when a train steps onto its last spike, the two interval rules that are each other's reflection (max(edge gap, neighbouring ISI) if N>1 else the edge gap); R08.5 (=R02.8) at the start edge as at the end edge every distance to the nearest spike of the other train is defined by the nearest-spike search (a shortcut at one edge only breaks the mirror image); R08.3 the coincidence limit uses only t_end - t_start and 2 max_tau."
   + NOT_DECIDED + "reversal covariance of the scan as a whole, sign flip of the order profile under reversal, floating-point effects.",
   ["lemma L6 (typing implies invariance); input construction (SpikeTrain.__init__, generate_poisson_spikes) is outside the typed scope"],
   {'R08.1': 100, 'R08.2': 8, 'R08.3': 25})
@@ -587,11 +609,13 @@ P('C09', 'other',
    lambda c: r09_2_ownership(c, 'R09.2', {'PieceWiseConstFunc', 'PieceWiseLinFunc', 'DiscreteFunc'}),
    lambda c: kernel_results_fresh(c, 'R09.2', [k for f in eng(c).families if f.wrapper.cls for k in (f.py, f.pyx)]),
    lambda c: merge_idiom_obs(c, [f for f in eng(c).families if f.wrapper.cls], 'R09.3'),
+   lambda c: _exits(c, [f for f in eng(c).families if f.wrapper.cls in ('PieceWiseConstFunc', 'PieceWiseLinFunc')], 'R09.10'),
    lambda c: [o for f in eng(c).families if f.wrapper.cls in ('PieceWiseConstFunc', 'PieceWiseLinFunc') for k in (f.py, f.pyx)
               for o in written_extent(_ensure_helpers(c), k, 'R09.4', 1)],
    lambda c: [o for o in RC.add_value_rules(c, _ensure_helpers(c), 'R09.5') if o.rule == 'R09.5'],
    lambda c: RC.mul_scalar_spec(c, 'R09.6'),
    lambda c: add_kernel_symmetry(c, eng(c), 'R09.8', {'PieceWiseConstFunc', 'PieceWiseLinFunc'}),
+   lambda c: RC.add_method_spec(c, 'R09.9', {'PieceWiseConstFunc', 'PieceWiseLinFunc'}),
    lambda c: _sib(c, [f for f in eng(c).families if f.wrapper.cls in ('PieceWiseConstFunc', 'PieceWiseLinFunc')], 'R12.2'),
    lambda c: _average_profile(c)],
   "R09.1 no add kernel and no class method stores through an alias of an argument (interprocedural effect analysis, both backends): the added "
@@ -601,7 +625,8 @@ P('C09', 'other',
   "of the tail copies, len(x)=len(y)+1; R09.5 value rules at a new breakpoint (sum of piece values; own value + linear interpolation of the other "
   "operand); R09.6 mul_scalar / copy / constructor shapes; R09.8 operand-swap symmetry of the add kernels as a proof by program symmetry (sigma(P) == P "
   "under x1,y1.. <-> x2,y2.., using the wrapper's asserted common end points and the loop-exit fact): f.add(g) and g.add(f) compute the same arrays, "
-  "and the two tail-copy branches are mirror images; sibling equality of the add kernels; average_profile route."
+  "and the two tail-copy branches are mirror images; R09.9 every path of add() goes through the add kernel (own arrays, operand's arrays, components "
+  "stored in order, nothing else stored); sibling equality of the add kernels; average_profile route."
   + NOT_DECIDED + "pointwise equality and integral additivity as numbers; independence of the addition order up to rounding.",
   ["lemma L3"],
   {'R09.1': 30, 'R09.2': 15, 'R09.3': 40, 'R09.4': 20, 'R09.5': 15})
@@ -623,6 +648,7 @@ P('C10', 'other',
 
 P('C11', 'other',
   [lambda c: merge_idiom_obs(c, [f for f in eng(c).families if f.wrapper.cls == 'DiscreteFunc'], 'R11.0'),
+   lambda c: _exits(c, [f for f in eng(c).families if f.wrapper.cls == 'DiscreteFunc'], 'R11.9'),
    lambda c: [o for o in RC.add_value_rules(c, _ensure_helpers(c), 'R09.5') if o.rule == 'R11.1'],
    lambda c: [o for f in eng(c).families if f.wrapper.cls == 'DiscreteFunc' for k in (f.py, f.pyx)
               for o in written_extent(_ensure_helpers(c), k, 'R11.1x', 0)],
@@ -630,6 +656,7 @@ P('C11', 'other',
    lambda c: RC.avrg_spec(c, 'DiscreteFunc', 'R11.3'),
    lambda c: RC.plottable_discrete_spec(c, 'R11.5'),
    lambda c: add_kernel_symmetry(c, eng(c), 'R11.6', {'DiscreteFunc'}),
+   lambda c: RC.add_method_spec(c, 'R11.7', {'DiscreteFunc'}),
    lambda c: r13_1_no_param_written(c, 'R11.4', modules={'pyspike.DiscreteFunc'}) + r09_2_ownership(c, 'R11.4', {'DiscreteFunc'}),
    lambda c: _sib(c, [f for f in eng(c).families if f.wrapper.cls == 'DiscreteFunc'], 'R12.2')],
   "R11.0 add-merge idiom of the discrete add kernel (strict, tie advances both: one entry per distinct event time); R11.1 entry rules: tie sums "
@@ -638,13 +665,14 @@ P('C11', 'other',
   "and multiplicities, edges excluded without interval, several intervals add up; R11.3 avrg = ratio, 1 when nothing is inside; R11.4 operand purity "
   "and ownership; R11.5 the multiplicity-aware smoothing of get_plottable_data against its documented table (window test, wanted multiplicity, own-"
   "contribution shortcut, whole/fractional neighbours on both sides, normalisation by the accumulated multiplicity); R11.6 operand-swap symmetry "
-  "of the add kernel; sibling equality of the discrete add kernel."
+  "of the add kernel; R11.7 every path of DiscreteFunc.add goes through the add kernel; sibling equality of the discrete add kernel."
   + NOT_DECIDED + "that the smoothing clauses compose to the documented mean for every distribution of multiplicities (value reasoning).",
   ["lemma L3"],
   {'R11.0': 20, 'R11.1': 15, 'R11.2': 4, 'R11.3': 3})
 
 P('C12', 'translation_validation',
   [lambda c: r12_1_pairing(eng(c)), lambda c: r12_2_routines(eng(c)), lambda c: r12_3_projections(eng(c)),
+   lambda c: _carry(_discrete_rules(c, ('sync', 'order')), {'R03.6'}, 'R12.6', ('R03.3',)),
    lambda c: only_rules(lambda cc: r_kernel_call_typestates(cc, ('', '', '')), {'R12.4'})(c),
    lambda c: only_rules(lambda cc: r05_1_route_identity(cc, 'R12.4'), {'R12.4'})(c),
    lambda c: only_rules(lambda cc: r03_4_interpolate(cc, 'R12.5'), {'R12.5'})(c)],
@@ -709,6 +737,7 @@ P('C15', 'other',
 
 P('C16', 'other',
   [lambda c: r16_1_bounded_window(c, 'R16.1'),
+   lambda c: _exits(c, list(discrete_families(c).values()), 'R16.9'),
    lambda c: only_rules(lambda cc: r_kernel_call_typestates(cc, ('', 'R16.2', '')), {'R16.2'})(c),
    lambda c: r03_5_limit_derivation(c, 'R16.3'),
    lambda c: r03_2_strict_tests(c, 'R16.4'),
@@ -724,6 +753,7 @@ P('C16', 'other',
 
 P('C17', 'other',
   [lambda c: RM.r17_filter(c, 'R17.1', 'R17.2'),
+   lambda c: _exits(c, [discrete_families(c).get('single')], 'R17.9'),
    lambda c: r13_1_no_param_written(c, 'R17.3', names={'filter_by_spike_sync', 'coincidence_single_python', 'coincidence_single_profile_cython'}),
    lambda c: r_fresh_results(c, 'R17.3', [('pyspike.spike_sync', 'filter_by_spike_sync')]),
    lambda c: [o for o in r13_2_reconcile_dominates(c, 'R17.3') if 'filter_by_spike_sync' in o.title],
@@ -741,10 +771,11 @@ P('C17', 'other',
 
 P('C18', 'other',
   [lambda c: r18_1_guarded_divisions(c, 'R18.1', 'R05.4'),
+   lambda c: _exits(c, eng(c).families, 'R18.9'),
    _guarded_subscripts_all,
    _extents_all,
    lambda c: r_kernel_call_typestates(c, ('R15.1', 'R16.2', 'R18.4')),
-   lambda c: only_rules(lambda cc: _discrete_rules(cc, ('sync', 'order')), {'R18.5'})(c),
+   lambda c: only_rules(lambda cc: _discrete_rules(cc, ('sync', 'order')), {'R18.5', 'R03.6'})(c),
    lambda c: _epilogue_trim(c, [k for f in (isi_family(c), spike_family(c)) if f for k in (f.py, f.pyx)], 'R18.5'),
    _unreachable_info,
    lambda c: _nonempty_aux(c, 'R18.4'),
